@@ -6,7 +6,7 @@
     the final configuration: `model_state` (what `model.state` points to), `cRegs` (everything the call read or drew — what
     it returns is a function of that), `cPos`.  Facts about one `State` object: the record [state_interface]. *)
 From Coq Require Import List Arith Bool ZArith.
-From Leaspy Require Import Api.ApiModel Api.ApiProofs Api.ApiInst.
+From Leaspy Require Import Api.ApiModel Api.ApiProofs Api.ApiInst Api.ApiCalls Api.ApiCallsProofs Api.ApiCallsInst.
 Import ListNotations.
 
 (** estimate (compute_individual_trajectory): the model's State OBJECT is exactly what it was — not even its cache moved —
@@ -141,3 +141,140 @@ Theorem C13_examples :
      = option_map (fun c => cRegs c) (Memo.api_call Memo.scipy Memo.after_load (0, 0, 0)).
 Proof. exact (conj Memo.interface (conj Memo.estimate_runs (conj Memo.mcmc_runs Memo.scipy_after_clean_agrees))). Qed.
 Print Assumptions C13_examples.
+
+(* ====================================================================== the calls as they are really made (Api/ApiCalls.v) *)
+
+(** Any call that only addresses clones (estimate for any number of individuals, the per-individual work of scipy_minimize,
+    the trajectories of simulate): the model's State OBJECT is exactly what it was and `model.state` still points to it. *)
+Theorem C13_clones_only_pure :
+  forall (V : Type) sread swrite sclone tracked tape seed_pos (script : list (ev V)) (s : st V) (p : gpos) (c' : cfg V),
+    forallb (untouched_ev V) script = true ->
+    api_call V sread swrite sclone tracked tape seed_pos script s p = Some c' ->
+    nth_error (cS c') 0 = Some s /\ cCur c' = 0.
+Proof. intros; eapply clones_only_pure; eauto. Qed.
+Print Assumptions C13_clones_only_pure.
+
+(** `BaseModel.estimate` for any list of requests (one clone per individual): state object, pointer and generators untouched. *)
+Theorem C13_estimate_many_pure :
+  forall (V : Type) sread swrite sclone tracked tape seed_pos (tvar : nat) (outs : list nat) (reqs : list (ereq V))
+         (s : st V) (p : gpos) (c' : cfg V),
+    api_call V sread swrite sclone tracked tape seed_pos (estimate_many V 0 tvar outs reqs) s p = Some c' ->
+    nth_error (cS c') 0 = Some s /\ cCur c' = 0 /\ cPos c' = p.
+Proof. intros; eapply estimate_many_pure; eauto. Qed.
+Print Assumptions C13_estimate_many_pure.
+
+(** scipy_minimize as really called (seeds; reads of prior parameters on the model's state; any work on clones — any number
+    of individuals, any optimiser activity): `model.state` is the same object and every variable reads as before. *)
+Theorem C13_scipy_call_pure :
+  forall (V : Type) sread swrite sclone tracked tape seed_pos anc indep simOn,
+    state_interface V sread swrite sclone anc indep simOn ->
+    forall (sd : nat) (scal : list nat) (work : list (ev V)) (s : st V) (p : gpos) (c' : cfg V),
+      forallb (untouched_ev V) work = true -> simOn top s s ->
+      api_call V sread swrite sclone tracked tape seed_pos (scipy_call V sd scal work) s p = Some c' ->
+      exists s', model_state V c' = Some s' /\ cCur c' = 0 /\ simOn top s' s /\ forall n, snd (sread s' n) = snd (sread s n).
+Proof. intros; eapply scipy_call_pure; eauto. Qed.
+Print Assumptions C13_scipy_call_pure.
+
+(** MCMC personalisation as really called: `pre` (seeds, data, initial values, any sampler activity assigning only data /
+    individual variables on the model's own state), `_terminate_algo`, then anything on later clones.  Afterwards
+    `model.state` is the cleaned clone: every variable of P agrees with the state before, every data and individual
+    variable reads as unset. *)
+Theorem C13_mcmc_call_clean :
+  forall (V : Type) sread swrite sclone tracked tape seed_pos anc indep simOn,
+    state_interface V sread swrite sclone anc indep simOn ->
+    forall (P : view) (pre : list (ev V)) (dvars ivars : list nat) (tail : list (ev V)) (s : st V) (p : gpos) (c' : cfg V),
+      simOn top s s ->
+      (forall n, In n (dvars ++ ivars) -> P n = false /\ indep n = true) ->
+      forallb (fun e => writes_in V (mem (dvars ++ ivars)) e && noclone_ev V e) pre = true ->
+      forallb (clones_from V 1) tail = true ->
+      api_call V sread swrite sclone tracked tape seed_pos (mcmc_call V pre dvars ivars tail) s p = Some c' ->
+      exists sf, model_state V c' = Some sf /\ cCur c' = 1 /\ simOn P sf s /\
+                 forall n, In n (dvars ++ ivars) -> snd (sread sf n) = None.
+Proof. intros; eapply mcmc_call_clean; eauto. Qed.
+Print Assumptions C13_mcmc_call_clean.
+
+(** The result of a seeded call depends only on (kept variables of the model, inputs = the script, seed): two model objects
+    that agree on the kept variables — whatever earlier calls, the fit included, left in them — at ANY two generator
+    positions give the same outcome, provided the flow check accepts the script. *)
+Theorem C13_seeded_call_function_of_seed :
+  forall (V : Type) sread swrite sclone tracked tape seed_pos anc indep simOn,
+    state_interface V sread swrite sclone anc indep simOn ->
+    forall (kept : view) (sd : nat) (body : list (ev V)) (s s' : st V) (p p' : gpos),
+      simOn kept s s' ->
+      flow_all V anc 1 ([kept], 0) body <> None ->
+      orel (same_outcome V) (api_call V sread swrite sclone tracked tape seed_pos (seeded V sd body) s p)
+                            (api_call V sread swrite sclone tracked tape seed_pos (seeded V sd body) s' p').
+Proof. intros; eapply seeded_call_function_of_seed; eauto. Qed.
+Print Assumptions C13_seeded_call_function_of_seed.
+
+(** A repeated call gives the same answer: run the call again on whatever state `s1` the first run left (it agrees with
+    the former state on the kept variables — that is what the purity / cleaning theorems above provide) and from wherever
+    the first run left the generators. *)
+Theorem C13_repeated_call_same_answer :
+  forall (V : Type) sread swrite sclone tracked tape seed_pos anc indep simOn,
+    state_interface V sread swrite sclone anc indep simOn ->
+    forall (kept : view) (sd : nat) (body : list (ev V)) (s s1 : st V) (p : gpos) (c1 : cfg V),
+      simOn kept s1 s ->
+      flow_all V anc 1 ([kept], 0) body <> None ->
+      api_call V sread swrite sclone tracked tape seed_pos (seeded V sd body) s p = Some c1 ->
+      orel (same_outcome V) (api_call V sread swrite sclone tracked tape seed_pos (seeded V sd body) s1 (cPos c1)) (Some c1).
+Proof. intros; eapply repeated_call_same_answer; eauto. Qed.
+Print Assumptions C13_repeated_call_same_answer.
+
+(** End to end for MCMC personalisation (seeds, ALL data and individual variables assigned, any sampler body, termination,
+    tail): the model is left clean AND calling again on the object as left gives the same outcome. *)
+Theorem C13_mcmc_repeat_same_answer :
+  forall (V : Type) sread swrite sclone tracked tape seed_pos anc indep simOn,
+    state_interface V sread swrite sclone anc indep simOn ->
+    forall (kept : view) (sd : nat) (data : list (nat * option V)) (init_ind : list (nat * (regs V -> option V)))
+           (body : list (ev V)) (dvars ivars : list nat) (tail : list (ev V)) (s : st V) (p : gpos) (c1 : cfg V),
+      simOn top s s ->
+      (forall n, In n (dvars ++ ivars) -> kept n = false /\ indep n = true) ->
+      (forall nv, In nv data -> In (fst nv) (dvars ++ ivars)) ->
+      (forall nf, In nf init_ind -> In (fst nf) (dvars ++ ivars)) ->
+      forallb (fun e => writes_in V (mem (dvars ++ ivars)) e && noclone_ev V e) body = true ->
+      forallb (clones_from V 1) tail = true ->
+      closed anc (vadds (map fst init_ind) (vadds (map fst data) kept)) ->
+      api_call V sread swrite sclone tracked tape seed_pos (mcmc_full V sd data init_ind body dvars ivars tail) s p = Some c1 ->
+      exists s1, model_state V c1 = Some s1 /\ cCur c1 = 1 /\ simOn kept s1 s
+                 /\ (forall n, In n (dvars ++ ivars) -> snd (sread s1 n) = None)
+                 /\ orel (same_outcome V)
+                         (api_call V sread swrite sclone tracked tape seed_pos (mcmc_full V sd data init_ind body dvars ivars tail) s1 (cPos c1))
+                         (Some c1).
+Proof. intros; eapply mcmc_repeat_same_answer; eauto. Qed.
+Print Assumptions C13_mcmc_repeat_same_answer.
+
+(** The caller's settings: the algorithm writes (`n_burn_in_iter`, nested annealing keys, ...) into ITS deep copy; what the
+    caller sees of the settings dictionary is unchanged, for every sequence of writes.  (Same lemma as C11_settings_copied:
+    `algo_parameters = deepcopy(settings.parameters)`, algo/base.py:92.) *)
+Theorem C13_settings_copied :
+  forall (h : heap) (a : nat) (ws : list pwrite),
+    caller_ok h a ->
+    view_dict (do_writes (snd (deep_copy h a)) (fst (deep_copy h a)) ws) a = view_dict h a.
+Proof. exact settings_copied. Qed.
+Print Assumptions C13_settings_copied.
+
+(** Without the copy, or with a one-level copy, the caller's settings do change. *)
+Theorem C13_settings_alias_refuted :
+  view_dict (do_writes (snd (alias demo_heap 0)) (fst (alias demo_heap 0)) [WTop 0 5%Z]) 0 <> view_dict demo_heap 0
+  /\ view_dict (do_writes (snd (shallow_copy demo_heap 0)) (fst (shallow_copy demo_heap 0)) [WSub 1 0 5%Z]) 0
+     <> view_dict demo_heap 0.
+Proof. exact (conj alias_refuted shallow_copy_refuted). Qed.
+Print Assumptions C13_settings_alias_refuted.
+
+(** Non-vacuity of the call-level statements on the memo table (ApiInst.v). *)
+Theorem C13_call_examples :
+  (* estimate for two individuals: a + t for each, state object untouched *)
+  option_map (fun c => (cRegs c, nth_error (cS c) 0, cCur c)) (Memo.api_call MemoCalls.est2 Memo.after_fit (4, 5, 6))
+    = Some ([Some 18%Z; Some 17%Z], Some Memo.after_fit, 0)
+  (* full MCMC call on the state left by a fit: cleaned clone is current, individual variable unset, parameter kept ... *)
+  /\ option_map (fun c => (cCur c, option_map (fun s => (snd (Memo.sread s 0), snd (Memo.sread s 1))) (model_state Memo.V c)))
+                (Memo.api_call MemoCalls.mcmc_full_script Memo.after_fit (4, 5, 6)) = Some (1, Some (None, Some 10%Z))
+  (* ... all hypotheses of C13_mcmc_repeat_same_answer hold for it ... *)
+  /\ MemoCalls.mcmc_full_hyps
+  (* ... and the repeated call returns the same registers although it starts from another state and generator position *)
+  /\ MemoCalls.mcmc_repeat_demo
+  (* scipy_minimize as really called, on the state left by a fit: pointer and reads unchanged, yet the answer is the stale 5 *)
+  /\ option_map (fun c => (cCur c, Memo.hd_or (cRegs c))) (Memo.api_call MemoCalls.scipy_full Memo.after_fit (0, 0, 0)) = Some (0, Some 5%Z).
+Proof. exact MemoCalls.call_examples. Qed.
+Print Assumptions C13_call_examples.
